@@ -22,7 +22,42 @@ ISA = {'description': 'c09', 'general': {'address_size': 16, 'endian': 'big', 'r
 BASES = ['VAL', 'SIZE', 'AA', 'BB', 'CC', 'LIMIT', 'XY']
 
 
+def gen_history(rng):
+    """definition-order histories: a symbol whose replacement names symbols that are defined only later is used before and
+    after those definitions (the expansion of a symbol is not a constant of the symbol: it depends on what is defined at
+    the point of use), and later lines mention the late symbol before, after and without the early one"""
+    names = rng.sample(BASES, rng.randint(2, 4))
+    early, late = names[0], names[1:]
+    kinds = {'history'}
+    shadow = {n: rng.randint(0, 250) for n in late}          # usable as ordinary constants until they become symbols
+    before = [f'{n} = {v}' for n, v in shadow.items()]
+    body = []
+    t = rng.choice([' + ', ' * ', ' - ']).join(rng.sample(late, rng.randint(1, len(late))) + ([str(rng.randint(1, 9))] if rng.random() < 0.5 else []))
+    body.append(('define', early, t))
+
+    def use():
+        pool = [early] + late
+        toks = [rng.choice(pool) for _ in range(rng.randint(1, 3))]
+        if rng.random() < 0.6:
+            a, b = rng.choice(late), early
+            toks = rng.choice([[a, b], [b, a], [a, b, a], [b]])
+        return rng.choice(['.byte ', '.2byte ']) + ', '.join(toks) if rng.random() < 0.7 else 'ldw ' + ' + '.join(toks)
+    for n in late:
+        for _ in range(rng.randint(0, 2)):
+            body.append(('line', use()))
+        body.append(('define', n, str(rng.randint(0, 99)) if rng.random() < 0.7 else rng.choice([x for x in late if x != n] or ['5'])))
+        if rng.random() < 0.3:
+            w = 'W' + n
+            body.append(('define', w, f'{n} {rng.choice("+*")} {early}'))        # late symbol before the early one, inside a symbol
+            body.append(('line', f'.2byte {w}'))
+    for _ in range(rng.randint(1, 4)):
+        body.append(('line', use()))
+    return {'pre_isa': [], 'pre_cli': [], 'before': before, 'body': body, 'kinds': sorted(kinds)}
+
+
 def gen_case(rng, tier):
+    if rng.random() < 0.3:
+        return gen_history(rng)
     names = rng.sample(BASES, rng.randint(1, 5))
     # ordinary constants whose names contain symbol names (must stay untouched)
     consts = {}
